@@ -453,10 +453,15 @@ class AsyncBuffer(AsyncIterable):
             return
         self._stopped.set()
         tasks = self._tasks
-        while not tasks.empty():
-            _ = tasks.get()
-        # `tasks` is now empty. The thread needs to put at most one
-        # more element into the queue, which is safe.
+        # Keep draining until the worker has exited. The worker may be blocked
+        # in `put` and may still put up to three more elements (the one it is
+        # holding, then `FINISHED`, or `STOPPED` and the exception), which can
+        # exceed `maxsize`.
+        while self._worker.is_alive():
+            try:
+                _ = tasks.get(timeout=0.01)
+            except queue.Empty:
+                pass
         self._worker.join()
         self._stopped = None
 
